@@ -214,7 +214,14 @@ func keyOf(fid string) uint64 {
 }
 
 type stats struct {
-	evals, hits, misses, missesMemResident, sets, restarts, aliasGets, rotations int64
+	evals, hits, misses, missesMemResident, sets, restarts, aliasGets, rotations, resultAliasesCache int64
+}
+
+// scribble is what the caller does to its own buffer after SetChunk returned.
+func scribble(b []byte) {
+	for i := range b {
+		b[i] ^= 0xA5
+	}
 }
 
 func hexs(b []byte) string {
@@ -263,7 +270,11 @@ func runSeq(r *lib.Run, c *seqCase, dir string, st *stats) {
 		switch o.Kind {
 		case "set":
 			data := content(fid, o.Ver, o.Size)
-			cache.SetChunk(fid, data)
+			// the caller owns the buffer it passes in and reuses it right after the call (as
+			// the mount's upload path does); the reference content is the harness's own copy
+			buf := append([]byte{}, data...)
+			cache.SetChunk(fid, buf)
+			scribble(buf)
 			layer := 2
 			if len(data) <= unit {
 				layer = 0
@@ -318,12 +329,33 @@ func runSeq(r *lib.Run, c *seqCase, dir string, st *stats) {
 			}
 			if ok {
 				st.hits++
+				// statistic only: does the returned slice alias the cache's own memory? Flip one byte,
+				// look up again, restore. (Not part of the statement: its histories consist of stores
+				// and lookups; no caller in the tree writes into a returned slice.)
+				got[0] ^= 0xFF
+				var again []byte
+				if o.Kind == "get" {
+					again = cache.GetChunk(fid, o.Min)
+				} else {
+					again = cache.GetChunkSlice(fid, o.Off, o.Len)
+				}
+				if len(again) > 0 && again[0] == got[0] {
+					st.resultAliasesCache++
+				}
+				got[0] ^= 0xFF
 				continue
 			}
 			// refuting observation: classify
 			class, alias, other := "garbage", "none", ""
+			for _, v := range s.versions {
+				sv := append([]byte{}, v...)
+				scribble(sv)
+				if len(v) > 0 && matches(o.Kind, sv, got, o) {
+					class = "store-buffer-aliased" // the bytes the caller wrote into its own buffer after SetChunk returned
+				}
+			}
 			for j, t := range states {
-				if j == o.Fid {
+				if j == o.Fid || class == "store-buffer-aliased" {
 					continue
 				}
 				for _, v := range t.versions {
@@ -340,6 +372,9 @@ func runSeq(r *lib.Run, c *seqCase, dir string, st *stats) {
 				if alias == "same-key" {
 					break
 				}
+			}
+			if class == "store-buffer-aliased" {
+				alias, other = "none", ""
 			}
 			if class == "garbage" && len(s.versions) > 0 {
 				class = "wrong-bytes-of-same-fid" // e.g. wrong offset, short or long slice
@@ -373,6 +408,8 @@ func main() {
 		"distinct = distinct (configuration, fid universe, op list); non-trivial = at least one lookup returned bytes and at least one disk volume rotation or restart happened")
 	r.Assume("a fid has one immutable content; in 1 of 25 stores a fid is stored again with other content, and then any of the contents stored under that fid is accepted")
 	r.Assume("GetChunk must return a prefix of the stored bytes; GetChunkSlice must return exactly bytes [offset, min(offset+length, size)); an empty result is always accepted (counted as a miss)")
+	r.Assume("the buffer handed to SetChunk belongs to the caller: the driver overwrites it right after every SetChunk and keeps the reference content in its own copy")
+	r.Assume("a lookup result is not written to by the driver (the statement's histories are stores and lookups; no caller in the tree writes into a returned slice); whether results alias cache memory is probed by flipping one byte, looking up again and restoring it, and reported as a statistic")
 	r.Assume("mem_resident=true marks lookups the memory tier (keyed by the whole file id) must answer itself: 1024-entry configuration, fid stored once since the cache was created, payload <= unit, requested size <= payload")
 
 	if r.Replay != "" {
@@ -420,6 +457,7 @@ func main() {
 				total.restarts += st.restarts
 				total.aliasGets += st.aliasGets
 				total.rotations += st.rotations
+				total.resultAliasesCache += st.resultAliasesCache
 				mu.Unlock()
 				if st.hits > 0 {
 					r.Nontrivial(fmt.Sprintf("seq/%d/%d", r.Seed, i))
@@ -446,6 +484,7 @@ func main() {
 	r.Count("restarts", total.restarts)
 	r.Count("lookups_answered_with_bytes_of_a_same_key_fid", total.aliasGets)
 	r.Count("disk_volume_rotations(estimated)", total.rotations)
+	r.Count("lookup_results_aliasing_cache_memory(statistic)", total.resultAliasesCache)
 	r.Count("sequences", int64(nSeq))
 	if total.hits == 0 || total.restarts == 0 {
 		r.Inconclusive("no lookup answered with data, or no restart executed")
